@@ -36,11 +36,21 @@ Weight(e) ==
     [] e.c = "-" /\ e.s \in {"sethdr", "sendhdr", "settrl", "recv", "wait", "return"} -> 2
     [] e.c = "close" /\ e.s = "-" -> 2
     [] OTHER -> 1
+\* once the handler has seen the end of the context: mostly the handler carrying on
+\* regardless and the client looking at what it can still see
+LateWeight(e) ==
+  CASE e.c = "-" /\ e.s \in {"sethdr", "send"} -> 5
+    [] e.c = "-" /\ e.s \in {"sendhdr", "settrl"} -> 2
+    [] e.c \in {"header", "recv"} -> 3
+    [] e.c = "-" /\ e.s = "wait" -> 1
+    [] OTHER -> 2
 Weighted(L) == LET p == R(UNION { { <<e, k>> : k \in 1..Weight(e) } : e \in L }) IN p[1]
+LateWeighted(L) == LET p == R(UNION { { <<e, k>> : k \in 1..LateWeight(e) } : e \in L }) IN p[1]
 Pick(z, L) ==
   LET Lc == { e \in L : e.c \in {"cancel", "deadline"} }
       Ln == L \ Lc
   IN IF Ln = {} \/ (Lc # {} /\ R(1..100) <= CxPct) THEN R(Lc) ELSE Weighted(Ln)
+PickLate(z, L) == LateWeighted(L)
 
 Finishers(L) == LET A == { e \in L : e.s = "return" /\ e.c = "-" } IN
                 IF A # {} THEN A ELSE { e \in L : e.c = "recv" /\ e.s = "-" }
@@ -51,7 +61,8 @@ Walk(z, st, steps, dl) ==
       len == Len(steps)
       stopPct == IF st.term.has THEN 45 ELSE 12
   IN IF CanStop(st) /\ (L = {} \/ len >= MaxLen \/ R(1..100) <= stopPct) THEN steps
-     ELSE LET e0 == IF len >= MaxLen /\ Finishers(L) # {} THEN R(Finishers(L)) ELSE Pick(z, L)
+     ELSE LET e0 == IF len >= MaxLen /\ Finishers(L) # {} THEN R(Finishers(L))
+                    ELSE IF st.waited /\ ~st.ret THEN PickLate(z, L) ELSE Pick(z, L)
               e == WithJ(st, Fill(z, st.shape, e0))
           IN Walk(z, R(Step(st, e, len + 1)), Append(steps, e), dl)
 
